@@ -41,6 +41,10 @@ def run(ctx):
         # per-solve bookkeeping is consulted, not the persistent cache, when deciding what still has to be encoded
         import c09
         ctx.guard("new-solvables" + tag, c09.new_solvables, ctx, crate, crs, tag)
+        # a Cancelled outcome must not leave a wrong answer behind in the persistent cache: the cancellation error of a
+        # sub-query is propagated, never turned into an (empty) list that is then stored (rule of C12, cache only)
+        import c12
+        ctx.guard("result-must-use" + tag, c12.results_used, ctx, crate, tag, ("resolvo::solver::cache::",), 0)
 
 
 def state_reset(ctx, crate, tag):
